@@ -168,6 +168,15 @@ def normalise(val):
     elif INT_S in val and any(a[0] == 'c' and a[1] == 'int' for a in val):
         val = frozenset(a for a in val if not (a[0] == 'c' and a[1] == 'int'))
     lists = [a for a in val if a[0] == 'list']
+    if lists:
+        # a summary list absorbs the known sequences whose elements it already covers (keeps joins idempotent)
+        cover = lists[0][1] if len(lists) == 1 else None
+        if cover is not None:
+            drop = [a for a in val if a[0] == 'seq' and len(a) == 3 and a[1] in ('list', 'tuple') and all(e <= cover for e in a[2])]
+            if drop:
+                val = frozenset(a for a in val if a not in drop)
+                if len(val) <= 1:
+                    return val
     dicts = [a for a in val if a[0] == 'dict']
     sets = [a for a in val if a[0] == 'set']
     toks = [a for a in val if a[0] == 'toks']
@@ -307,8 +316,10 @@ def erase_tags(val):
     """objects stored into a summary container / a heap field lose the identity of the element they came from, tokens
     lose their position in the token list"""
     v = map_tags(val, lambda t: '*')
-    if any(a[0] == 'tok' or (a[0] == 'str' and isinstance(a[2], tuple) and a[2][0] == 'p') for a in v):
-        v = frozenset(STR_U if (a[0] == 'tok' or (a[0] == 'str' and isinstance(a[2], tuple) and a[2][0] == 'p')) else a for a in v)
+    if any(a[0] == 'tok' for a in v):
+        # a token that may be the size the reader appended stays recognisable as such (its position is forgotten)
+        v = frozenset((('str', 'u', 'maybe-size') if (a[4] and a[3] is not False and (a[1] is None or '?' in a[4] or (a[1] & a[4]))) else STR_U)
+                      if a[0] == 'tok' else a for a in v)
     return v
 
 
@@ -1353,7 +1364,12 @@ class Interp:
         left = self.eval(fr, load)
         right = self.eval(fr, st.value)
         v = self.binop(fr, st.op, left, right, st)
-        self.assign(fr, t, v, st)
+        sym = None
+        if isinstance(t, ast.Name) and isinstance(st.op, (ast.Add, ast.Sub)) and isinstance(st.value, ast.Constant) and type(st.value.value) is int:
+            cur = self.sym_of_name(fr, t.id)
+            if isinstance(cur, tuple) and cur and cur[0] == 'ctr':
+                sym = ('ctr', cur[1], cur[2] + (st.value.value if isinstance(st.op, ast.Add) else -st.value.value))
+        self.assign(fr, t, v, st, sym=sym)
         out.next.append(fr.store)
 
     def st_Raise(self, fr, st, store, out):
@@ -2560,6 +2576,10 @@ class Interp:
             kind = a[1]
             if kind == 'ctypes.int' and attr == 'value':
                 return av(INT_S)
+            if kind == 'struct.Struct' and attr == 'size':
+                return av(INT_S)
+            if kind == 'struct.Struct' and attr == 'format':
+                return a[2]
             return av(('bmeth', a, attr))
         if k == 'kdict' and a[2] == ('dcfield',) and const(attr) in dict(a[1]):
             return dict(a[1])[const(attr)]
@@ -2622,6 +2642,8 @@ class Interp:
             a = atoms[0]
             if a[0] == 'seq':
                 return 'exact', list(a[2])
+            if a[0] == 'c' and a[1] == 'str' and len(a[2]) <= 64:
+                return 'exact', [av(const(ch)) for ch in a[2]]
             if a[0] == 'kdict':
                 return 'exact', [av(k) for k, _ in a[1]]
             if a[0] == 'enum' and a[1] is not None:
@@ -2829,14 +2851,26 @@ class Interp:
         extra = None
         if len(parts) >= 2 and parts[-1][0] == 'val' and all(a == ('int', 'fsize') for a in parts[-1][1]) \
                 and parts[-2][0] == 'const' and parts[-2][1][-1:].isspace():
-            extra = ('sizeint', self.guard_keywords(fr))
+            extra = ('sizeint', self.guard_keywords(fr) or frozenset({'?'}))
+        elif any(p_[0] == 'val' and (('int', 'fsize') in p_[1] or any(a[0] == 'str' and (a[2] == 'fsize' or (isinstance(a[2], tuple) and a[2][0] == 'sizeint')) for a in p_[1]))
+                 for p_ in parts):
+            extra = ('sizeint', frozenset({'?'}))       # the reader's size is in this text, where is not followed
         return av(('str', taint, extra))
 
     def ex_FormattedValue(self, fr, node):
         return self.eval(fr, node.value)
 
+    def ambient_words(self, fr):
+        """string constants the current path is known to be about: prefixes / arguments of tests that held, and the constants
+        local names are narrowed to (`keyword == 'include'` failed, so keyword is 'include_bytes')"""
+        out = set(fr.store.guards) | {f[1] for f in fr.store.facts if f[0] == 'guard'}
+        for k, v in fr.store.vars.items():
+            if isinstance(k, str) and 0 < len(v) <= 4 and all(a == NONE or (a[0] == 'c' and a[1] == 'str') for a in v):
+                out |= {a[2] for a in v if a != NONE and 0 < len(a[2]) <= 32}
+        return frozenset(out)
+
     def guard_keywords(self, fr):
-        return frozenset(g.strip().lower() for g in fr.store.guards)
+        return frozenset(g.strip().lower() for g in self.ambient_words(fr))
 
     def ex_UnaryOp(self, fr, node):
         if isinstance(node.op, ast.Not):
@@ -2906,13 +2940,31 @@ class Interp:
             if kb == 'c' and b[2][-1:].isspace():
                 extra = 'wsend'
             if kb == 'str' and b[2] == 'fsize' and lws:
-                extra = ('sizeint', self.guard_keywords(fr))
+                extra = ('sizeint', self.guard_keywords(fr) or frozenset({'?'}))
+            elif (ka == 'str' and a[2] == 'fsize') or (kb == 'str' and b[2] == 'fsize'):
+                extra = ('sizeint', frozenset({'?'}))       # the reader's size is in this text, where is not followed
+            elif ka == 'str' and isinstance(a[2], tuple) and a[2][0] == 'sizeint':
+                extra = a[2]
+            elif kb == 'str' and isinstance(b[2], tuple) and b[2][0] == 'sizeint':
+                extra = ('sizeint', frozenset({'?'}))
             return {('str', taint, extra)}
         if is_str_atom(a) and isinstance(op, ast.Mod):
             taint = str_taint(a)
             if is_str_atom(b) and str_taint(b) == 'u' or kb in ('seq', 'list', 'obj', 'kdict', 'dict'):
                 taint = 'u'
-            return {('str', taint, None)}
+            extra = None
+            last = b
+            has_size = b == ('int', 'fsize')
+            if kb == 'seq' and b[2]:
+                has_size = any(('int', 'fsize') in e for e in b[2])
+                last = b[2][-1]
+            if has_size:
+                # the reader's file size is formatted into this text: at the end after whitespace it is the size token,
+                # anywhere else where it ends up is not followed
+                at_end = ka == 'c' and a[2][-2:] in ('%d', '%s', '%i') and a[2][-3:-2].isspace() and \
+                    (last == ('int', 'fsize') or (isinstance(last, frozenset) and all(x == ('int', 'fsize') for x in last)))
+                extra = ('sizeint', (self.guard_keywords(fr) or frozenset({'?'})) if at_end else frozenset({'?'}))
+            return {('str', taint, extra)}
         if is_str_atom(a) and is_int_atom(b) and isinstance(op, ast.Mult) or is_int_atom(a) and is_str_atom(b) and isinstance(op, ast.Mult):
             s = a if is_str_atom(a) else b
             return {('str', str_taint(s), None)}
@@ -3458,6 +3510,16 @@ class Interp:
         t = {self.truth(a) for a in v}
         ct = bool(t & {'t', '?'})
         cf = bool(t & {'f', '?'})
+        if isinstance(test, ast.Call) and ct and refine:
+            words = set()
+            for a_ in test.args:
+                if isinstance(a_, ast.Constant) and isinstance(a_.value, str) and 0 < len(a_.value) <= 32:
+                    words.add(a_.value)
+            if words:
+                s_f0 = store.copy() if cf else store
+                store.guards = store.guards | words
+                store.facts = store.facts | {('guard', w_) for w_ in words}
+                return True, store, cf, s_f0
         if not refine or not (ct and cf):
             if ct and cf:
                 return True, store, True, store.copy()
@@ -3718,6 +3780,27 @@ class Interp:
                 if isinstance(s, tuple) and s and s[0] == 'headof':
                     return s
                 return None
+        if isinstance(expr, ast.BinOp) and isinstance(expr.op, (ast.Add, ast.Sub)) and isinstance(expr.right, ast.Constant) and type(expr.right.value) is int:
+            s_ = self.sym_of(fr, expr.left)
+            if isinstance(s_, tuple) and s_ and s_[0] == 'ctr':
+                return ('ctr', s_[1], s_[2] + (expr.right.value if isinstance(expr.op, ast.Add) else -expr.right.value))
+            return None
+        if isinstance(expr, ast.BinOp) and isinstance(expr.op, ast.Add) and isinstance(expr.left, ast.Constant) and type(expr.left.value) is int:
+            s_ = self.sym_of(fr, expr.right)
+            if isinstance(s_, tuple) and s_ and s_[0] == 'ctr':
+                return ('ctr', s_[1], s_[2] + expr.left.value)
+            return None
+        if isinstance(expr, ast.Subscript) and isinstance(expr.value, ast.Name) and isinstance(expr.slice, ast.Name) \
+                and self.owner_frame(fr, expr.value.id) is fr and self.owner_frame(fr, expr.slice.id) is fr:
+            # rows[i] of the physical lines: the element at the position the counter i has now (i is given a counter identity)
+            v = fr.store.vars.get(expr.value.id)
+            if v and all(a[0] == 'lines' for a in v):
+                cur = fr.store.syms.get(expr.slice.id)
+                if not (isinstance(cur, tuple) and cur and cur[0] == 'ctr'):
+                    cur = ('ctr', (fr.fid, expr.slice.id) + pos_of(expr), 0)
+                    fr.store.syms[expr.slice.id] = cur
+                return ('at', cur[1], cur[2])
+            return None
         if isinstance(expr, ast.Subscript) and isinstance(expr.value, ast.Name) and isinstance(expr.slice, ast.Constant) and expr.slice.value == 0:
             if self.owner_frame(fr, expr.value.id) is fr:
                 v = fr.store.vars.get(expr.value.id)
@@ -3922,6 +4005,7 @@ class Interp:
                 s_t = s_f = store
             if ct and len(kv) == 1 and is_const(next(iter(kv))) and next(iter(kv))[1] == 'str':
                 s_t.guards = s_t.guards | {next(iter(kv))[2]}
+                s_t.facts = s_t.facts | {('guard', next(iter(kv))[2])}
             return ct, s_t, cf, s_f
         return None
 
@@ -4523,7 +4607,8 @@ class Interp:
         callee = Frame(self, q, fnnode, parent, fid, self.defcls.get(id(fnnode)))
         callee.depth = fr.depth + 1
         self.frames[fid] = callee
-        callee.store = Store({k: self.brand(q, k, v) for k, v in bound.items()}, facts_in, key[5], dict(syms))
+        branded = bound if self.defcls.get(id(fnnode)) is not None else {k: self.brand(q, k, v) for k, v in bound.items()}
+        callee.store = Store(dict(branded), facts_in, key[5], dict(syms))
         if key[6]:
             callee.store.vars.update(dict(key[6]))
         callee.tin = set(tin)
@@ -4744,7 +4829,22 @@ class Interp:
         if cname == 'float':
             return av(FLOAT)
         if cname in ('bytes', 'bytearray'):
+            if x is not None:
+                for a in x:
+                    elems = BOT
+                    if a[0] in ('list', 'set'):
+                        elems = a[1]
+                    elif a[0] == 'seq':
+                        for e in a[2]:
+                            elems = join(elems, e)
+                    if any(b == INT_U or b[0] == 'idx' for b in elems):
+                        self.library_raise(fr, 'ValueError', node)     # bytes([v]) needs 0 <= v < 256
+                        break
             return av(BYTES)
+        if cname == 'float' and x is not None:
+            if any((b[0] == 'str' and b[1] == 'u') or b[0] == 'tok' for b in x):
+                self.library_raise(fr, 'ValueError', node)
+            return av(FLOAT)
         if cname in ('list', 'tuple', 'set', 'frozenset'):
             kind = {'list': 'list', 'tuple': 'tuple', 'set': 'set', 'frozenset': 'set'}[cname]
             if x is None:
@@ -4767,8 +4867,34 @@ class Interp:
             for a in x:
                 if a[0] in ('kdict', 'dict'):
                     out = join(out, av(a))
-                else:
-                    out = join(out, av(('dict', None, av(TOP), BOT)))
+                    continue
+                mode, pairs = self.iteration(fr, av(a), node)
+                if mode == 'exact':
+                    items, ok = [], True
+                    for p_ in pairs:
+                        two = [b for b in p_ if b[0] == 'seq' and len(b[2]) == 2]
+                        if len(two) != 1 or len(p_) != 1 or len(two[0][2][0]) != 1 or not is_key(next(iter(two[0][2][0]))):
+                            ok = False
+                            break
+                        kk = next(iter(two[0][2][0]))
+                        items = [(k2, v2) for k2, v2 in items if k2 != kk] + [(kk, two[0][2][1])]
+                    if ok:
+                        items += [(const(k), v) for k, v in args.kw.items()]
+                        out = join(out, av(('kdict', tuple(items), None)))
+                        continue
+                if mode == 'exact':
+                    y = BOT
+                    for e in pairs:
+                        y = join(y, e)
+                    pairs = y
+                keys, vals = BOT, BOT
+                for b in pairs:
+                    if b[0] == 'seq' and len(b[2]) == 2:
+                        keys, vals = join(keys, b[2][0]), join(vals, erase_tags(b[2][1]))
+                    else:
+                        keys, vals = join(keys, av(TOP)), join(vals, av(TOP))
+                nonconst = frozenset(k_ for k_ in keys if not is_key(k_))
+                out = join(out, av(('dict', None if nonconst else frozenset(k_ for k_ in keys if is_key(k_)), vals, nonconst)))
             return out
         if cname == 'type':
             if x is None:
@@ -4812,6 +4938,7 @@ class Interp:
         out = set()
         raises = False
         sure = False
+        unsure_tok = sure_tok = False
         for a in args.pos[0]:
             if a[0] in ('tok', 'str', 'c'):
                 sure = True
@@ -4826,12 +4953,21 @@ class Interp:
                 if heads is not None and last is True and sz and heads <= sz:
                     out.add(INT_U)
                     self.ev_discharge[id(node)] = (fr.qual, node, 'size-token', sorted(heads), None)
+                elif sz and last is not False and ('?' in sz or heads is None):
+                    # a size written by the reader may be this token, but under which keyword it was appended / which
+                    # keyword this token list starts with is not known here: no verdict rather than a finding
+                    raises = True
+                    unsure_tok = True
+                    out.add(INT_U)
                 else:
                     raises = True
+                    sure_tok = True
                     out.add(INT_U)
             elif a[0] == 'str':
                 if a[1] == 'u':
                     raises = True
+                    if a[2] == 'maybe-size':
+                        unsure_tok = True
                 out.add(INT_U if a[1] == 'u' else INT_S)
             elif is_int_atom(a) or a == FLOAT:
                 out.add(a if a[0] == 'int' else INT_S)
@@ -4844,7 +4980,7 @@ class Interp:
             else:
                 out.add(INT_U)
         if raises:
-            really = any((a[0] == 'tok') or (a[0] == 'str' and a[1] == 'u') or (a[0] == 'c' and a[1] == 'str') for a in args.pos[0])
+            really = sure_tok or any((a[0] == 'str' and a[1] == 'u' and a[2] != 'maybe-size') or (a[0] == 'c' and a[1] == 'str') for a in args.pos[0])
             self.library_raise(fr, 'ValueError', node, uncertain=not really)
         return frozenset(out)
 
@@ -4968,6 +5104,8 @@ class Interp:
         if name == 'ord':
             return av(INT_S)
         if name in ('chr',):
+            if x is not None and any(b == INT_U or b[0] == 'idx' for b in x):
+                self.library_raise(fr, 'ValueError', node)
             return av(STR_S)
         if name in ('repr', 'format', 'hex', 'bin', 'oct'):
             taint = 's'
@@ -5050,7 +5188,10 @@ class Interp:
             text = fmt_atom[2]
             if text.endswith('{}') and text[-3:-2].isspace() and text.count('{') == len(args.pos) \
                     and all(a == ('int', 'fsize') for a in args.pos[-1]):
-                extra = ('sizeint', self.guard_keywords(fr))
+                extra = ('sizeint', self.guard_keywords(fr) or frozenset({'?'}))
+        if extra is None and any(('int', 'fsize') in v or any(a[0] == 'str' and a[2] == 'fsize' for a in v)
+                                 for v in list(args.pos) + list(args.kw.values()) + ([args.star] if args.star else [])):
+            extra = ('sizeint', frozenset({'?'}))       # the size is in there, where is not followed
         return av(('str', taint, extra))
 
     def apply_method(self, fr, a, attr, args, node):
@@ -5114,7 +5255,20 @@ class Interp:
                 return av(STR_U), None
             if attr == 'hex':
                 return av(STR_S), None
-            if attr in ('extend', 'append', 'clear'):
+            if attr in ('extend', 'append', 'insert'):
+                for p_ in pos:
+                    vals = p_
+                    for b in p_:
+                        if b[0] in ('list', 'set'):
+                            vals = join(vals, b[1])
+                        elif b[0] == 'seq':
+                            for e in b[2]:
+                                vals = join(vals, e)
+                    if any(b == INT_U or b[0] == 'idx' for b in vals):
+                        self.library_raise(fr, 'ValueError', node)     # a byte must be in range(0, 256)
+                        break
+                return av(NONE), None
+            if attr == 'clear':
                 return av(NONE), None
             if attr in ('startswith', 'endswith'):
                 return av(BOOL), None
@@ -5188,6 +5342,10 @@ class Interp:
             kind = a[1]
             if kind == 're.Pattern':
                 return self.call_lib(fr, 're.' + attr, Args([av(const('<pattern>'))] + list(pos), args.star, args.kw, args.kwstar), node), None
+            if kind == 'struct.Struct':
+                if attr in ('pack', 'pack_into', 'unpack', 'unpack_from', 'iter_unpack'):
+                    return self.call_lib(fr, 'struct.' + attr, Args([a[2]] + list(pos), args.star, args.kw, args.kwstar), node), None
+                return av(TOP), None
             if kind == 're.Match':
                 if attr in ('group', '__getitem__'):
                     return av(STR_U), None
@@ -5203,6 +5361,8 @@ class Interp:
             return av(TOP), None
         if is_int_atom(a):
             if attr == 'to_bytes':
+                if a in (INT_U,) or k == 'idx' or a == ('int', 'fsize'):
+                    self.library_raise(fr, 'OverflowError', node)      # a value the user sizes need not fit the given length
                 return av(BYTES), None
             if attr == 'bit_length':
                 return av(INT_S), None
@@ -5606,7 +5766,7 @@ class Interp:
             if name in ('os.listdir',):
                 return av(('list', av(STR_U)))
             if name.startswith('os.path.') or name in ('os.getcwd', 'os.fspath', 'os.getenv'):
-                return av(STR_U)
+                return av(('str', 'u', ('derived', name)))
             return av(EXT)
         if root == 're':
             fn = name.split('.', 1)[1]
@@ -5669,7 +5829,9 @@ class Interp:
                     return av(BYTES)
                 return av(('list', av(INT_U, BYTES)))
             if fn == 'Struct':
-                return av(TOP)
+                if x is None or not all(is_const(a) and a[1] in ('str', 'bytes') for a in x):
+                    self.library_raise(fr, 'struct.error', node, uncertain=x is None or any(a == TOP for a in x))
+                return av(('libobj', 'struct.Struct', x if x is not None else av(TOP)))
             return av(TOP)
         if root == 'ctypes':
             return av(('libobj', 'ctypes.int'))
@@ -5682,6 +5844,8 @@ class Interp:
         if name in ('dict.fromkeys',):
             return av(('dict', None, pos[1] if len(pos) > 1 else av(NONE), BOT))
         if name in ('bytes.fromhex', 'bytearray.fromhex'):
+            if x is not None and any((b[0] == 'str' and b[1] == 'u') or b[0] == 'tok' for b in x):
+                self.library_raise(fr, 'ValueError', node)
             return av(BYTES)
         if root in ('logging', 'argparse', 'sys', 'abc', 'typing', 'warnings', 'time'):
             if fr.summary is not None:
